@@ -3,8 +3,9 @@
 set -e
 cd "$(dirname "$0")"
 export CARGO_NET_OFFLINE=true
-[ -f tools/srcfacts.py ] && python3 tools/srcfacts.py || true
-(cd coq && coq_makefile -f _CoqProject -o Makefile >/dev/null && timeout 3000 make -j16 -k >/dev/null 2>&1 || true)
-(cd driver && ocamlfind ocamlopt -O3 -w -a molt_model.mli molt_model.ml driver.ml -o driver)
+python3 tools/srcfacts.py
 (cd harness && cargo build --release --offline 2>&1 | tail -2)
+./harness/target/release/molt_harness unicode x > coq/Gen/UnicodeTabs.v
+(cd coq && coq_makefile -f _CoqProject -o Makefile >/dev/null && (timeout 3000 make -j16 -k >/dev/null 2>&1 || true))
+(cd driver && ocamlfind ocamlopt -O3 -w -a molt_model.mli molt_model.ml driver.ml -o driver)
 echo setup done
